@@ -104,32 +104,32 @@ structure PSite (α : Type) where
   w : α
 
 /-- `for l = 0; l < a.Length(); l++ { … seq1[l] … seq2[l] … selected[l] … weights[l] }` -/
-def psites (len : Nat) (s1 s2 : Seq) (sel : List Bool) (ws : List α) : List (PSite α) :=
+@[specialize] def psites (len : Nat) (s1 s2 : Seq) (sel : List Bool) (ws : List α) : List (PSite α) :=
   (List.range len).map fun l => ⟨s1.getD l 0, s2.getD l 0, sel.getD l false, ws.getD l 0⟩
 
 /-! ### JC69Dist (model.go:69), `stepsize = 1` -/
 
 /-- first loop nest, one pair: `(p(j,k), len(j,k))` — weighted number of differing / of comparable sites -/
-def jcStep (st : α × α) (s : PSite α) : α × α :=
+@[specialize] def jcStep (st : α × α) (s : PSite α) : α × α :=
   if s.sel && !isAmbigu s.a && !isAmbigu s.b then
     (if s.a != s.b then st.1 + s.w else st.1, st.2 + s.w)
   else st
 
-def jcCounts (l : List (PSite α)) : α × α := l.foldl jcStep (0, 0)
+@[specialize] def jcCounts (l : List (PSite α)) : α × α := l.foldl jcStep (0, 0)
 
 /-- `(p(j,k), dist(j,k))` of `JC69Dist` for j < k (second loop nest: regenerated, tie T2) -/
-def jcPair (l : List (PSite α)) : α × α :=
+@[specialize] def jcPair (l : List (PSite α)) : α × α :=
   let c := jcCounts l
   Gen.ProtDist.jc69Cell c.1 c.2
 
 /-- a symmetric matrix with zero diagonal from its upper triangle (`mat.NewDense` is zero-filled; every
 cell (j,k), j<k, is written together with its mirror (k,j); the diagonal is never written) -/
-def symMatrix (n : Nat) (upper : Nat → Nat → α) : List (List α) :=
+@[specialize] def symMatrix (n : Nat) (upper : Nat → Nat → α) : List (List α) :=
   (List.range n).map fun i => (List.range n).map fun j =>
     if i = j then 0 else if i < j then upper i j else upper j i
 
 /-- what `JC69Dist(a, weights, selected)` returns: `(p, dist)` (`q` stays zero) -/
-def jc69Dist (rows : List Seq) (ws : List α) (sel : List Bool) : List (List α) × List (List α) :=
+@[specialize] def jc69Dist (rows : List Seq) (ws : List α) (sel : List Bool) : List (List α) × List (List α) :=
   let len := alLength rows
   let cell := fun i j => jcPair (psites len (rows.getD i []) (rows.getD j []) sel ws)
   (symMatrix rows.length fun i j => (cell i j).1, symMatrix rows.length fun i j => (cell i j).2)
@@ -137,7 +137,7 @@ def jc69Dist (rows : List Seq) (ws : List α) (sel : List Bool) : List (List α)
 /-! ### aaFrequency (utils.go:40) and the frequencies the substitution model ends up with -/
 
 /-- `aaFrequency`: rows in the outer loop (`IterateChar`), sites in the inner loop -/
-def aaFrequency (v : Variant) (rows : List Seq) (ws : List α) (sel : List Bool) : List α :=
+@[specialize] def aaFrequency (v : Variant) (rows : List Seq) (ws : List α) (sel : List Bool) : List α :=
   let freq0 : α := 1 / RealLike.ofNat ns
   let num := rows.foldl (fun num s =>
     (List.range s.length).foldl (fun (num : List α) j =>
@@ -154,13 +154,13 @@ def aaFrequency (v : Variant) (rows : List Seq) (ws : List α) (sel : List Bool)
 
 /-- `ProtModel.InitModel` first normalises the frequencies it is given (or its table's): `pi[i] / Σ pi`,
 summed in index order (models/protein/model.go:117-125) -/
-def normalisePi (pi0 : List α) : List α :=
+@[specialize] def normalisePi (pi0 : List α) : List α :=
   let tot := sumTo ns fun i => pi0.getD i 0
   (List.range ns).map fun i => pi0.getD i 0 / tot
 
 /-- the frequencies of the substitution model after `ProtDistModel.InitModel(a, weights)`; `table`: the
 model's own frequencies (regenerated table, `Gv.Gen.Protein`) -/
-def modelPi (v : Variant) (modelFreqs rmGaps : Bool) (table : List α) (rows : List Seq) (ws : Option (List α)) : List α :=
+@[specialize] def modelPi (v : Variant) (modelFreqs rmGaps : Bool) (table : List α) (rows : List Seq) (ws : Option (List α)) : List α :=
   if modelFreqs then normalisePi table
   else
     let w := defaultWeights (alLength rows) ws
@@ -168,16 +168,29 @@ def modelPi (v : Variant) (modelFreqs rmGaps : Bool) (table : List α) (rows : L
 
 /-! ### the substitution model as `lk_Dist` sees it -/
 
-/-- what `pMat` / `partialLK` read from `model.model` -/
+/-- what `pMat` / `partialLK` read from `model.model` (matrices row-major, 20 × 20) -/
 structure Subst (α : Type) where
-  pi : Nat → α
-  val : Nat → α
+  piA : Array α
+  valA : Array α
   /-- `LeigenVects()` (inverse of the right eigen vectors) -/
-  left : Nat → Nat → α
+  leftA : Array α
   /-- `ReigenVects()` -/
-  right : Nat → Nat → α
+  rightA : Array α
   useGamma : Bool
   alpha : α
+
+@[inline] def Subst.pi (m : Subst α) (i : Nat) : α := m.piA.getD i 0
+@[inline] def Subst.val (m : Subst α) (k : Nat) : α := m.valA.getD k 0
+@[inline] def Subst.left (m : Subst α) (i j : Nat) : α := m.leftA.getD (i * ns + j) 0
+@[inline] def Subst.right (m : Subst α) (i j : Nat) : α := m.rightA.getD (i * ns + j) 0
+
+/-- `acc + f k + f (k+1) + … + f (k+r-1)`, accumulated from the left -/
+@[specialize] def sumFrom (f : Nat → α) : Nat → Nat → α → α
+  | _, 0, acc => acc
+  | k, r + 1, acc => sumFrom f (k + 1) r (acc + f k)
+
+/-- `f 0 + f 1 + … + f (n-1)` accumulated from 0 (equal to `Spec.Subst.sumTo`, without building the index list) -/
+@[specialize] def sumN (n : Nat) (f : Nat → α) : α := sumFrom f 0 n 0
 
 /-- `DBL_MIN = 2^-1022` (the oracle checks the bit pattern of the regenerated constant) -/
 def dblMin : α := 1 / RealLike.pow 2 1022
@@ -185,34 +198,44 @@ def dblMin : α := 1 / RealLike.pow 2 1022
 def dblEps : α := 1 / RealLike.pow 2 52
 
 /-- `expt[k]` of `pMatEmpirical` -/
-def expt (m : Subst α) (len : α) (k : Nat) : α :=
+@[specialize] def expt (m : Subst α) (len : α) (k : Nat) : α :=
   if m.useGamma && RealLike.ltb dblEps (RealLike.abs m.alpha) then
     RealLike.pow (m.alpha / (m.alpha - m.val k * len)) m.alpha
   else RealLike.exp (m.val k * len)
 
-/-- one entry of `model.pij` after `pMatEmpirical(len)`: `v = 0; v += (U[i][k]*expt[k]) * V[k][j]`, floored -/
-def pEmpirical (m : Subst α) (len : α) (i j : Nat) : α :=
-  let v := sumTo ns fun k => (m.right i k * expt m len k) * m.left k j
+/-- a vector of `n` values computed once (the Go code stores `expt` in a slice) -/
+@[specialize] def tabulate (n : Nat) (f : Nat → α) : Array α := ((List.range n).map f).toArray
+/-- reading a tabulated vector -/
+@[inline] def tabGet (t : Array α) (k : Nat) : α := t.getD k 0
+
+/-- one entry of `model.pij` after `pMatEmpirical(len)`, given the slice `expt`:
+`v = 0; v += (U[i][k]*expt[k]) * V[k][j]`, floored at `DBL_MIN` -/
+@[specialize] def pEmpiricalOf (m : Subst α) (ex : Nat → α) (i j : Nat) : α :=
+  let v := sumN ns fun k => (m.right i k * ex k) * m.left k j
   if RealLike.ltb v dblMin then dblMin else v
 
-/-- `pMat(l)` -/
-def pMat (m : Subst α) (l : α) (i j : Nat) : α :=
-  if RealLike.ltb l Gen.ProtDist.BL_MIN then (if i = j then 1 else 0) else pEmpirical m l i j
+def pEmpirical (m : Subst α) (len : α) (i j : Nat) : α := pEmpiricalOf m (expt m len) i j
+
+/-- `pMat(l)` given the slice `expt` for `l` -/
+@[specialize] def pMatOf (m : Subst α) (l : α) (ex : Nat → α) (i j : Nat) : α :=
+  if RealLike.ltb l Gen.ProtDist.BL_MIN then (if i = j then 1 else 0) else pEmpiricalOf m ex i j
 
 /-- the branch length `lk_Dist` really uses -/
-def clampBL (dist : α) : α :=
+@[specialize] def clampBL (dist : α) : α :=
   if RealLike.ltb dist Gen.ProtDist.BL_MIN then Gen.ProtDist.BL_MIN
   else if RealLike.ltb Gen.ProtDist.BL_MAX dist then Gen.ProtDist.BL_MAX else dist
 
 /-- log-likelihood of a 20×20 weight matrix given transition probabilities `P` (row-major accumulation);
 `partialLK(i,j) = 0 + π_i · P_ij` -/
-def lnLOf (pi : Nat → α) (F P : Nat → Nat → α) : α :=
+@[specialize] def lnLOf (pi : Nat → α) (F P : Nat → Nat → α) : α :=
   (List.range ns).foldl (fun acc i =>
     (List.range ns).foldl (fun acc j => acc + F i j * RealLike.log (0 + pi i * P i j)) acc) 0
 
 /-- `lk_Dist(F, dist)` -/
-def lkDist (m : Subst α) (F : Nat → Nat → α) (dist : α) : α :=
-  lnLOf m.pi F (pMat m (clampBL dist))
+@[specialize] def lkDist (m : Subst α) (F : Nat → Nat → α) (dist : α) : α :=
+  let len := clampBL dist
+  let ex := tabulate ns (expt m len)
+  lnLOf m.pi F (pMatOf m len (tabGet ex))
 
 /-! ### dist_F_Brent (lk.go:176), for an arbitrary objective -/
 
@@ -249,14 +272,14 @@ structure BResult (α : Type) where
   evals : List α
 
 /-- utils.go `sign` -/
-def sign (a b : α) : α := if RealLike.ltb 0 b then RealLike.abs a else -(RealLike.abs a)
+@[specialize] def sign (a b : α) : α := if RealLike.ltb 0 b then RealLike.abs a else -(RealLike.abs a)
 
 def half : α := (1 : α) / (2 : α)
 
-def tol1Of (tol x : α) : α := tol * RealLike.abs x + Gen.ProtDist.BRENT_ZEPS
+@[specialize] def tol1Of (tol x : α) : α := tol * RealLike.abs x + Gen.ProtDist.BRENT_ZEPS
 
 /-- the trial step of one iteration: `(d, e, u)` with `u` already raised to `BL_MIN` -/
-def brentTrial (tol : α) (s : BState α) : α × α × α :=
+@[specialize] def brentTrial (tol : α) (s : BState α) : α × α × α :=
   let xm := half * (s.a + s.b)
   let tol1 := tol1Of tol s.x
   let tol2 := 2 * tol1
@@ -286,7 +309,7 @@ def brentTrial (tol : α) (s : BState α) : α × α × α :=
   (d, de.2, u)
 
 /-- bookkeeping after the objective was evaluated at `|u|` (value `fu`) and the loop goes on -/
-def brentUpdate (s : BState α) (d e u fu : α) : BState α :=
+@[specialize] def brentUpdate (s : BState α) (d e u fu : α) : BState α :=
   let s := { s with d := d, e := e, oldp := s.curp, curp := RealLike.abs u }
   if RealLike.leb fu s.fx then
     let s := if RealLike.leb s.x u then { s with a := s.x } else { s with b := s.x }
@@ -301,7 +324,7 @@ def brentUpdate (s : BState α) (d e u fu : α) : BState α :=
     else s
 
 /-- the stop test at the top of iteration `iter` -/
-def brentStop (bracket : Bool) (tol : α) (iter : Nat) (s : BState α) : Bool :=
+@[specialize] def brentStop (bracket : Bool) (tol : α) (iter : Nat) (s : BState α) : Bool :=
   if bracket then
     -- repaired: `math.Abs(x-xm) <= (tol2 - 0.5*(b-a))`
     RealLike.leb (RealLike.abs (s.x - half * (s.a + s.b))) (2 * tol1Of tol s.x - half * (s.b - s.a))
@@ -310,7 +333,7 @@ def brentStop (bracket : Bool) (tol : α) (iter : Nat) (s : BState α) : Bool :=
     decide (iter > 1) && RealLike.ltb (RealLike.abs (s.oldp - s.curp)) ((1 : α) / (1000000 : α))
 
 /-- the `for iter = 1; iter <= BRENT_ITMAX; iter++` loop; `fuel` = iterations left -/
-def brentLoop (f : α → α) (bracket : Bool) (tol : α) (nIterMax : Nat) :
+@[specialize] def brentLoop (f : α → α) (bracket : Bool) (tol : α) (nIterMax : Nat) :
     Nat → Nat → BState α → α → List α → BResult α
   | 0, _, _, param, evals => ⟨.tooMany, param, -(1 : α), evals⟩
   | fuel + 1, iter, s, _, evals =>
@@ -327,7 +350,7 @@ def brentLoop (f : α → α) (bracket : Bool) (tol : α) (nIterMax : Nat) :
 
 /-- `dist_F_Brent(ax, bx, cx, tol, n_iter_max, &param, F)` for the objective `f = fun t => -lk_Dist(F, t)`;
 `param0`: the value `*param` holds on entry -/
-def brent (f : α → α) (bracket : Bool) (ax bx cx tol : α) (nIterMax : Nat) (param0 : α) : BResult α :=
+@[specialize] def brent (f : α → α) (bracket : Bool) (ax bx cx tol : α) (nIterMax : Nat) (param0 : α) : BResult α :=
   let ab : α × α := if RealLike.ltb ax cx then (ax, cx) else (cx, ax)
   let abx := RealLike.abs bx
   let fw := f abx
@@ -335,7 +358,7 @@ def brent (f : α → α) (bracket : Bool) (ax bx cx tol : α) (nIterMax : Nat) 
     ⟨ab.1, ab.2, 0, 0, bx, bx, bx, fw, fw, fw, abx, abx⟩ param0 [abx]
 
 /-- `opt_Dist_F(dist, F)`: the whole Brent result (`.param` is the value the function returns) -/
-def optDistF (f : α → α) (bracket : Bool) (dist : α) : BResult α :=
+@[specialize] def optDistF (f : α → α) (bracket : Bool) (dist : α) : BResult α :=
   let dist := if RealLike.ltb dist Gen.ProtDist.BL_MIN then Gen.ProtDist.BL_MIN else dist
   brent f bracket Gen.ProtDist.BL_MIN dist Gen.ProtDist.BL_MAX Gen.ProtDist.brentTol Gen.ProtDist.brentNIterMax dist
 
@@ -351,7 +374,7 @@ def fStates (s : PSite α) : Option (Nat × Nat) :=
   | _, _ => none
 
 /-- `Fs[i][j]` after the `l` loop (before normalisation): the weights added to that cell, in site order -/
-def fCell (l : List (PSite α)) (i j : Nat) : α :=
+@[specialize] def fCell (l : List (PSite α)) (i j : Nat) : α :=
   l.foldl (fun acc s =>
     if s.sel then
       match fStates s with
@@ -360,26 +383,26 @@ def fCell (l : List (PSite α)) (i j : Nat) : α :=
     else acc) 0
 
 /-- `len` after the `l` loop -/
-def fLen (l : List (PSite α)) : α :=
+@[specialize] def fLen (l : List (PSite α)) : α :=
   l.foldl (fun acc s => if s.sel && (fStates s).isSome then acc + fWeight s else acc) 0
 
 /-- `Fs` after `if len > .0 { Fs.Apply(v / len) }` -/
-def fNorm (l : List (PSite α)) (i j : Nat) : α :=
+@[specialize] def fNorm (l : List (PSite α)) (i j : Nat) : α :=
   if RealLike.ltb 0 (fLen l) then fCell l i j / fLen l else fCell l i j
 
 /-- `mat.Sum(Fs)`: row sums, added up (gonum's `floats.Sum` may associate differently inside a row; only
 compared with the thresholds .001 and 1 ± .001) -/
-def fSum (F : Nat → Nat → α) : α := sumTo ns fun i => sumTo ns fun j => F i j
+@[specialize] def fSum (F : Nat → Nat → α) : α := sumTo ns fun i => sumTo ns fun j => F i j
 
 /-- `check2SequencesDiff` (after `checkAmbiguities`): some site with two unambiguous, different residues;
 in the repaired variant only selected sites count -/
 def seqsDiffer (v : Variant) (l : List (PSite α)) : Bool :=
   l.any fun s => (!v.diffHonoursSelection || s.sel) && (!isAmbigu s.a && !isAmbigu s.b) && s.a != s.b
 
-/-- evaluation cache: the 400 cells are computed once (the Go code stores them in a `mat.Dense`) -/
-def memo (F : Nat → Nat → α) : Nat → Nat → α :=
-  let cells : Array α := ((List.range (ns * ns)).map fun k => F (k / ns) (k % ns)).toArray
-  fun i j => if i < ns ∧ j < ns then cells.getD (i * ns + j) 0 else F i j
+/-- the 400 cells of a matrix computed once, row-major (the Go code stores them in a `mat.Dense`) -/
+@[specialize] def cellsOf (F : Nat → Nat → α) : Array α := tabulate (ns * ns) fun k => F (k / ns) (k % ns)
+/-- reading the stored matrix -/
+@[inline] def ofCells (cells : Array α) (i j : Nat) : α := tabGet cells (i * ns + j)
 
 inductive PairOut (α : Type)
   /-- `dist.Set(j, k, d_max)` -/
@@ -398,9 +421,10 @@ def capDist (d : α) : α := if RealLike.leb Gen.ProtDist.PROT_DIST_MAX d then G
 
 /-- the body of the `k` loop of `MLDist` for the pair whose site list is `l`; `jc`: `dist.At(j, k)` as left by
 `JC69Dist`; `lk`: `lk_Dist` as a function of the frequency matrix and the distance -/
-def pairDistWith (v : Variant) (lk : (Nat → Nat → α) → α → α) (l : List (PSite α)) (jc : α) : PairOut α :=
+@[specialize] def pairDistWith (v : Variant) (lk : (Nat → Nat → α) → α → α) (l : List (PSite α)) (jc : α) : PairOut α :=
   if seqsDiffer v l then
-    let F := memo (fNorm l)
+    let cells := cellsOf (fNorm l)
+    let F := ofCells cells
     let sum := fSum F
     if RealLike.ltb sum Gen.ProtDist.sumLow then .ok (capDist Gen.ProtDist.mlMissing)
     else if RealLike.ltb Gen.ProtDist.sumHi1 sum && RealLike.ltb sum Gen.ProtDist.sumHi2 then
@@ -409,7 +433,7 @@ def pairDistWith (v : Variant) (lk : (Nat → Nat → α) → α → α) (l : Li
     else .sumError
   else .ok 0
 
-def pairDist (v : Variant) (m : Subst α) (l : List (PSite α)) (jc : α) : PairOut α :=
+@[specialize] def pairDist (v : Variant) (m : Subst α) (l : List (PSite α)) (jc : α) : PairOut α :=
   pairDistWith v (lkDist m) l jc
 
 inductive MLErr | sumInvalid | tooManyIterations
@@ -420,7 +444,7 @@ def pairOrder (n : Nat) : List (Nat × Nat) :=
   (List.range n).flatMap fun j => ((List.range n).filter (j < ·)).map fun k => (j, k)
 
 /-- run the pairs in order; the first failure ends the call -/
-def collect (f : Nat × Nat → PairOut α) : List (Nat × Nat) → Except MLErr (List ((Nat × Nat) × α))
+@[specialize] def collect (f : Nat × Nat → PairOut α) : List (Nat × Nat) → Except MLErr (List ((Nat × Nat) × α))
   | [] => .ok []
   | p :: ps =>
     match f p with
@@ -443,12 +467,12 @@ def pairSites (rmGaps : Bool) (rows : List Seq) (ws : Option (List α)) (i j : N
   psites len (rows.getD i []) (rows.getD j []) (selectedSites rows rmGaps) (defaultWeights len ws)
 
 /-- what `MLDist` computes for the pair of rows `(i, j)`, i < j -/
-def pairOut (v : Variant) (m : Subst α) (rmGaps : Bool) (rows : List Seq) (ws : Option (List α)) (ij : Nat × Nat) : PairOut α :=
+@[specialize] def pairOut (v : Variant) (m : Subst α) (rmGaps : Bool) (rows : List Seq) (ws : Option (List α)) (ij : Nat × Nat) : PairOut α :=
   let l := pairSites rmGaps rows ws ij.1 ij.2
   pairDist v m l (jcPair l).2
 
 /-- the `dist` matrix `MLDist(a, weights)` returns (its `p` is `(jc69Dist …).1`) -/
-def mlDist (v : Variant) (m : Subst α) (rmGaps : Bool) (rows : List Seq) (ws : Option (List α)) :
+@[specialize] def mlDist (v : Variant) (m : Subst α) (rmGaps : Bool) (rows : List Seq) (ws : Option (List α)) :
     Except MLErr (List (List α)) :=
   match collect (pairOut v m rmGaps rows ws) (pairOrder rows.length) with
   | .ok ds => .ok (symMatrix rows.length (stored ds))
